@@ -1,7 +1,7 @@
 (* C02 / C01, part 5: sequences of lines, one message per line, and the round trip
    decode (encode ms) for representable messages.  Graphics chunk lines excluded here. *)
 From RP Require Import Lib.Base Lib.Sexp Lib.Strings Lib.TrimSpace Model.Gfx Model.Flatten Model.MsgIn Model.EncIn Model.DecIn
-  Spec.DenoteIn Spec.GrammarIn Proofs.StringsProofs Proofs.InEncLines Proofs.InEnc
+  Spec.DenoteIn Spec.GrammarIn Proofs.StringsProofs Proofs.InEncLines
   Proofs.InDecLines Proofs.InDec Proofs.InDecFam Proofs.InDecMain Proofs.InTotal.
 From Coq Require Import String.
 Open Scope list_scope.
@@ -92,29 +92,3 @@ Proof.
   intros H; inversion H; cbn; lia.
 Qed.
 
-(* ---------------------------------------------------------------- decode (encode ms) *)
-Section RoundTrip.
-  Variable js : list Z -> HWCState.
-  Variable jm : list Z -> list (option InboundMessage).
-  Variable ncp : list Z -> option (list Z).
-  Variable json_enc : HWCState -> list Z.
-  Variable nc_print : list Z -> list Z.
-  Variable olt : list Z -> bool.
-  Variable nok : list Z -> bool.
-  Hypothesis olt_ok : forall j, olt j = true -> strip_line_breaks j = j /\ single_line j = true.
-  Hypothesis nok_ok : forall n, nok n = true -> ncp (nc_print n) = Some n /\ single_line (nc_print n) = true.
-
-  Theorem dec_enc_in_nogfx : forall ms p,
-    forallb (rep_msg olt nok) ms = true -> forallb no_gfx_msg ms = true ->
-    exists ls ms', enc_in json_enc nc_print ms = Ok ls /\ dec_in js jm ncp ls = Ok ms' /\
-                   run_msgs p ms' = run_msgs p ms.
-  Proof.
-    intros ms p R G.
-    destruct (enc_in_sound_nogfx js jm ncp json_enc nc_print olt nok olt_ok nok_ok ms p None R G) as (ls & E & W & S).
-    assert (P : forallb (plain_line js jm ncp) ls = true).
-    { apply forallb_forall. intros l Hl. rewrite Forall_forall in W. specialize (W l Hl).
-      unfold effs_line in W. unfold plain_line. destruct (in_read js jm ncp l) as [[es|c]| |]; try discriminate. reflexivity. }
-    destruct (dec_in_sound_nogfx js jm ncp ls p None P) as (ms' & D & Q).
-    exists ls, ms'. split; [exact E|]. split; [exact D|]. rewrite Q. exact S.
-  Qed.
-End RoundTrip.
